@@ -1996,6 +1996,10 @@ func (ls *LState) Resume(th *LState, fn *LFunction, args ...LValue) (ResumeState
 		for _, arg := range args {
 			th.Push(arg)
 		}
+		if th.yieldNRet != MultRet {
+			// adjust to the number of results the pending yield expects
+			th.reg.SetTop(th.reg.Top() - len(args) + th.yieldNRet)
+		}
 	}
 	top := ls.GetTop()
 	threadRun(th)
